@@ -20,6 +20,7 @@ from ..contracts import ATOM_CONTRACTS
 from ..model import AnalysisError, ClassInfo, unparse, walk_no_nested
 
 DECIDED = [
+    "OBL-MERGE the checking pass of merge visits what the merging pass visits (obligation of the merge contracts, shared with C13)",
     "ATOM on every exceptional path of every method of the model classes: no visible write precedes an escaping raise (rollback stores cancel)",
     "PUBLISH constructors: nothing can raise after the new object was published into a parent",
     "HANDLER-1 every handler that rolls a field back catches all exceptions",
@@ -137,5 +138,10 @@ def run(prog, rep):
     A = run_atom(prog, rep, funcs, "ATOM", floor_funcs=120, floor_paths=800)
     n = handler_rule(prog, rep, funcs, "HANDLER-1")
     rep.floor("HANDLER-1", n, 1, "rollback handlers")
+    # obligations of the contracts that are cheap to re-check here (the others are rules of C03/C04/C05/C11/C13)
+    rep.rule("OBL-MERGE", "obligation of MERGE-REC / MERGE-EXTEND: BaseSection.merge_check walks every child pair that merge() will visit, on "
+                          "every normal path and whatever `strict` is (rule SIB-2 of C13)")
+    from .c13 import sib2_section_rule
+    sib2_section_rule(prog, rep, "OBL-MERGE")
     rep.assume("the tree invariant of C03 and the dtype conformance of C05 hold in the pre-state (used by the derived contracts)")
     rep.assume("raise vocabulary: explicit raise statements + LIB_RAISES table (odmlsa/raises.py); RuntimeError('cannot unmerge myself?') is an internal assertion and excluded")
